@@ -1041,7 +1041,7 @@ def fill_command(s, ed, rnd, tmp):
 
 
 MANIFEST = {
-    "engine": "regauto", "category": "other", "engines_also": ["looprule"],
+    "engine": "regauto", "category": "other",
     "technique": "contract-based deductive verification of the readers' regular expressions (tagged-automata inclusion over all strings of the "
                  "writer's line languages) and of _find_modulus_key (AST path execution against contracts); bounded run-time contracts for the rest",
     "text": "Proved for all strings: (1) _find_modulus_key returns c_(group 1) of its search when it matches and the header unchanged otherwise "
